@@ -2428,7 +2428,11 @@ impl Connection {
 
         // State transitions for error cases
         if let Err(conn_err) = result {
-            self.error = Some(conn_err.clone());
+            // A draining connection has already reported why it ended (the peer's close); whatever
+            // arrives afterwards, e.g. a stateless reset, must not be reported as a second reason
+            if !matches!(self.state, State::Draining | State::Drained) {
+                self.error = Some(conn_err.clone());
+            }
             self.state = match conn_err {
                 ConnectionError::ApplicationClosed(reason) => State::closed(reason),
                 ConnectionError::ConnectionClosed(reason) => State::closed(reason),
